@@ -350,6 +350,30 @@ def run_C17(ctx, proof_ok):
             "distribution": {"crlb_cases": n1, "confint_cases": n2, "sequence_cases": n3}}
 
 
+def run_C12(ctx, proof_ok):
+    import simc
+
+    E = epg()
+    r = lib.rng(12)
+    corpus = [decode_case(c) for c in load_corpus(ctx.prop)]
+    cases = [c for c in corpus if "items" in c] + [simc.gen_case(r, maxlen=budget(ctx.tier, 25, 50)) for _ in range(budget(ctx.tier, 300, 5000))]
+    n1, d1, dist1 = simc.compare(cases, E)
+    n2, d2, dist2 = simc.search_batched(r, E, budget(ctx.tier, 250, 5000))
+    n3, d3, dist3 = simc.search_modify(r, E, budget(ctx.tier, 200, 4000))
+    ctx.violations.extend(d1 + d2 + d3)
+    return {"evaluations": n1 + n2 + n3, "distinct_nontrivial": sum(1 for c in cases if len(c["items"]) > 3) + n2 + n3,
+            "rule": "timed random sequences over T/Phi/E/P/R/S/Wait/Offset/SPOILER with duration unset/number/True and 1..n Adc probes "
+                    "(F0/Z0/F/Z, weights, reduce, phase), optional probe= override list (None / Adc with its own phase), optional "
+                    "modify(T1,T2,g,att): simulate(adc_time=True) + get_adc_times vs the Lean Sim model run by the driver; batched "
+                    "sequences (array durations, array weights and phases on leading axes, reduce int/True/False) vs manual stepping "
+                    "of the real operators and the documented formula; modify() with scalar/array parameters, expand on/off, vs the "
+                    "hand-built sequence with explicit E/P evolutions and scaled flip angles",
+            "samples": [lib.jsonable(cases[-1])],
+            "distribution": {"model_cases": n1, **{"model_" + k: int(v) for k, v in dist1.items()},
+                             "batched_cases": n2, **{"batched_" + k: int(v) for k, v in dist2.items()},
+                             "modify_cases": n3, **{"modify_" + k: int(v) for k, v in dist3.items()}}}
+
+
 def merge_results(a, b, rule):
     out = dict(a)
     out["evaluations"] = a["evaluations"] + b["evaluations"]
@@ -695,6 +719,19 @@ PROPS["C17"] = {
     "partial": ["proved: the contraction patterns of the current source are the intended ones (decide on the regenerated strings), "
                 "Fisher = Re(J^H J) and symmetric, derivative of the inverse and hence of tr(W I^-1) given a differentiable inverse; "
                 "numpy's einsum/inv/cond, the t-table and the batch plumbing are tied by the numeric search only"],
+}
+
+PROPS["C12"] = {
+    "lean_modules": ["EpgVerif.Props.C12"],
+    "tie": [],
+    "audit": "EpgVerif/Audit/C12.lean",
+    "run": run_C12,
+    "replay": replay_generic,
+    "theorems_hint": ["simulate_length", "first_entry_value", "simulate_after_first", "first_time_is_prefix_sum", "modify_times", "modify_run",
+                      "modifyItems_is_modify"],
+    "partial": ["proved for the list-level simulate/get_adc_times/modify model over arbitrary operators, with the concrete default_modifier "
+                "shown to be that abstract modify; Adc acquire/post are modelled for one simulation (batch (1,)) and tied by execution; "
+                "array weights/phases/durations, reduce axes and modify(expand=) placement are decided by the defining-formula search only"],
 }
 
 NOT_CLAIMED = {}
